@@ -207,12 +207,14 @@ def stream_srl(ctx):
     st = Stream('seeley-richard-love', '_qubit_operator_creation(*_seeley_richard_love(i, j, c, n)) for ALL i, j < n, '
                 'all n <= N (N = 14 quick, 24 thorough) with a complex dyadic coefficient; Model compared exactly (the '
                 'Model reports which of the cases 0-10 fired: histogram in the distribution; case 11 = no branch); Spec '
-                'oracle (n <= 8): the result acts like c a_i^dagger a_j under the encoding; distinct = (n,i,j,c)')
+                'oracle (n <= 8, and n <= 11/12 for the rare odd-odd cases 7-10): the result acts like c a_i^dagger a_j under the encoding; distinct = (n,i,j,c)')
     b = Batch(ctx, st)
     rng = rng_for(ctx.seed, 'c05-srl')
     N = budget(ctx.tier, 14, 24)
+    NO = budget(ctx.tier, 11, 12)   # oracle bound for the rare odd-odd cases 7-10
     if ctx.drift:
         N = max(N, 18)
+        NO = 12
 
     def cmp_srl(st_, what, case, impl, mo):
         st_.count('case:%d' % mo['case'])
@@ -241,7 +243,8 @@ def stream_srl(ctx):
                     st.violate('_seeley_richard_love returned %d strings (no branch fired)' % n_ops, case, {})
                 b.add('_seeley_richard_love', case, {'op': jQ, 'n_ops': n_ops},
                       {'op': 'c05.srl', 'i': i, 'j': j, 'coef': to_gq(c), 'n': n},
-                      oracle('bk', 'fermion', n, ['one_body_term', i, j, to_gq(c)], jQ) if n <= 8 else None,
+                      oracle('bk', 'fermion', n, ['one_body_term', i, j, to_gq(c)], jQ)
+                      if (n <= 8 or (n <= NO and i % 2 == 1 and j % 2 == 1 and i != j)) else None,
                       cmp=cmp_srl)
         if len(b.items) > 3000:
             b.flush()
